@@ -70,8 +70,14 @@ public:
 
     // This size should be at least as large as MAX_LINE in context.h
     assert(len < 4096);
-    VERIFY(utf8::is_valid(p, p + len));
-    utf8::unchecked::utf8to32(p, p + len, std::back_inserter(utf32chars));
+    if (utf8::is_valid(p, p + len)) {
+      utf8::unchecked::utf8to32(p, p + len, std::back_inserter(utf32chars));
+    } else {
+      std::string repaired;
+      utf8::replace_invalid(p, p + len, std::back_inserter(repaired));
+      utf8::unchecked::utf8to32(repaired.begin(), repaired.end(),
+                                std::back_inserter(utf32chars));
+    }
 
     TRACE_CTOR(unistring, "std::string");
   }
